@@ -313,6 +313,10 @@ func concStress(seed int64, n, gor int) map[string]interface{} {
 	pristine := make([][]string, 6)
 	for i := range shared {
 		l := g.allowedList(pool, 1+g.rng.Intn(5))
+		if i >= 3 { // long, unsorted, with repeats
+			l = g.allowedList(pool, 12+g.rng.Intn(10))
+			l = append(l, l[0], l[3], l[3])
+		}
 		if i == 5 {
 			l = append(l, g.mutate(g.term(pool, true)), g.expr(2, pool, false))
 		}
